@@ -642,7 +642,12 @@ def _stream():
         c = flow_cfg(rng, marks=[size, wi])
         c.update(win=rng.choice(["tumbling", "sliding", "session"]), size=size, slide=round(size / rng.choice([1, 2, 3]), 6),
                  late=rng.choice(["DROP", "UPDATE", "SIDE_OUTPUT"]), lateness=rng.choice([0.0, lat(rng, zero_p=0.0, hi=0.1)]),
-                 wi=wi, skew=[rng.choice([0.0, 0.0, -0.05, -0.5, 0.02]) for _ in range(5)])
+                 wi=wi,
+                 # caller-supplied event times: equal to, behind and ahead of the processing time, by less and by more than
+                 # the watermark interval / window size (replayed or delayed streams, clock skew between producers)
+                 skew=[rng.choice([0.0, -0.05, -0.5, 0.02, -rel(rng, wi, (0.5, 1.0, 2.0, 5.0)), rel(rng, wi, (0.5, 2.0)),
+                                   -rel(rng, size, (0.5, 3.0))]) for _ in range(5)],
+                 explicit=rng.choice([1, 1, 2, 3]), as_instant=rng.random() < 0.3)
         return c
 
     def build(z, c):
@@ -656,8 +661,13 @@ def _stream():
         skew = [check_num(x, -10, 10) for x in c["skew"]]
         for i, t in enumerate(check_arr(c["arr"])):
             ctx = {"key": f"k{i % 2}", "value": i, "metadata": {}}
-            if i % 3:
-                ctx["event_time_s"] = max(0.0, (z.t0_ns + t) / 1e9 + skew[i % len(skew)])
+            if i % int(c.get("explicit", 3)) == 0:       # explicit=1: every record (the first included) carries an event time
+                et = max(0.0, (z.t0_ns + t) / 1e9 + skew[i % len(skew)])
+                if c.get("as_instant"):
+                    from happysimulator.core.temporal import Instant as _I
+                    ctx["event_time"] = _I.from_seconds(et)
+                else:
+                    ctx["event_time_s"] = et
             z.at(t, sp, "Process", ctx)
         for tag in c.get("tags", []):
             z.probe(f"probe.arr_{tag}")
@@ -900,6 +910,17 @@ def _disk():
         c = ops_cfg(rng, ["read", "write", "pread", "pwrite", "pflush"], nkeys=6)
         c.update(profile=rng.choice(["hdd", "ssd", "nvme", None]), cap=rng.randint(1, 4), ra=rng.choice([0, 2]),
                  drl=lat(rng, hi=0.002), dwl=lat(rng, hi=0.003), serial=rng.random() < 0.6)
+        if rng.random() < 0.4:
+            # eviction contention: a tiny cache filled with dirty pages, then capacity+1 .. capacity+3 writers / readers of
+            # NEW pages at one instant (not serialised), non-zero write-back latency
+            cap = rng.randint(1, 3)
+            t1 = rng.randrange(10**6, 10**9)
+            arr = [[0, "pwrite", k, 0.0] for k in range(cap)]
+            arr += [[t1, rng.choice(["pwrite", "pwrite", "pread"]), cap + j, 0.0] for j in range(cap + rng.randint(1, 3))]
+            arr += [[t1 + rng.randrange(1, 10**8), "pwrite", rng.randrange(0, 2 * cap + 4), 0.0] for _ in range(rng.randint(0, 6))]
+            arr.sort(key=lambda a: a[0])
+            c.update(arr=arr, nkeys=2 * cap + 4, cap=cap, ra=0, serial=False, dwl=lat(rng, zero_p=0.0, hi=0.003),
+                     tags=c["tags"] + ["eviction_contention"])
         return c
 
     def build(z, c):
